@@ -254,7 +254,7 @@ Definition f_c10_1_table : table :=
                                     c_UseUnderlyingTypeMethods := false; c_DefaultUpdate := false; c_Enum_Enabled := true; c_Enum_Unknown := [];
                                     c_ArgContextRegex := [] |};
                     m_fields := []; m_automap := []; m_raw_field_settings := false; m_UpdateTarget := false; m_constructor := None |};
-       g_origin := []; g_body := Some (BVal (POfAssign (TPtr (TBasic 2)) (APtr PId))) |} ].
+       g_origin := []; g_body := Some (BVal (POfAssign (TPtr (TBasic 2)) (APtr PId))); g_types := [] |} ].
 Lemma zero_skip_through_call_refuted :
   eval_a [] f_c10_1_table 5 (AStruct [FAssign (SelPath [(false, 0)] WNone) false (ASet (PCall 0))])
          (VStruct [VNil]) (VStruct [VPtr 7 (VBasic 1)]) 10
